@@ -399,6 +399,7 @@ pub fn stress_main() -> i32 {
     let consumer = std::thread::spawn(move || {
         t2.lock().unwrap().push(unsafe { libc::pthread_self() });
         let mut last = [None::<usize>; 100];
+        let mut seen99: std::collections::HashSet<usize> = std::collections::HashSet::new();
         let mut bad: Vec<String> = Vec::new();
         let mut got = 0usize;
         while !s2.load(AO::Relaxed) {
@@ -406,12 +407,21 @@ pub fn stress_main() -> i32 {
             match r {
                 Ok(Some(v)) => {
                     got += 1;
-                    if let Some(l) = last[v.producer] {
-                        if v.seq <= l && bad.len() < 5 {
-                            bad.push(format!("producer {} seq {} obtained after seq {} (duplicated or reordered)", v.producer, v.seq, l));
+                    if v.producer == 99 {
+                        // the handler runs on whichever thread was signalled: two of its instances can be
+                        // between drawing their number and their send at the same time, so their numbers
+                        // arrive in either order. Each number at most once, that is all that can be said.
+                        if !seen99.insert(v.seq) && bad.len() < 5 {
+                            bad.push(format!("producer 99 (the handler) seq {} obtained twice (duplicated)", v.seq));
                         }
+                    } else {
+                        if let Some(l) = last[v.producer] {
+                            if v.seq <= l && bad.len() < 5 {
+                                bad.push(format!("producer {} seq {} obtained after seq {} (duplicated or reordered)", v.producer, v.seq, l));
+                            }
+                        }
+                        last[v.producer] = Some(v.seq);
                     }
-                    last[v.producer] = Some(v.seq);
                 }
                 Ok(None) => {}
                 Err(_) => { p2.fetch_add(1, AO::SeqCst); }
